@@ -1,5 +1,1 @@
 package main
-
-func init() {
-	property("C15", "stub", nil)
-}
